@@ -155,6 +155,44 @@ def callers_of(P, suffix, crates=LIB):
     return out
 
 
+def call_terms(ctx, callee_path, crates=LIB, _depth=0):
+    """every call of `callee_path`, seen through transparent helpers: [(outer fn body, outer call node, call term)].
+    A private non-recursive helper that forwards to the callee is not a caller of its own: its call sites are."""
+    from .norm import subterms
+    out = []
+    name = cshort(callee_path)
+    for b, n in callers_of(ctx.P, callee_path, crates):
+        N = norm_of(ctx, b)
+        if b["path"] != callee_path and _depth < 4 and N.transparent_fn(b["path"]) is not None:
+            found = 0
+            for b2, n2, _t in call_terms(ctx, b["path"], crates, _depth + 1):
+                t2 = norm_of(ctx, b2).term(n2)
+                seen = set()
+                for st in subterms(t2):
+                    if st[0] == "call" and st[1] == name and show(st) not in seen:
+                        seen.add(show(st))
+                        out.append((b2, n2, st))
+                        found += 1
+            if found:
+                continue      # otherwise (helper not inlined after all / never called) the helper itself is the caller
+        out.append((b, n, N.term(n)))
+    # one entry per (outer fn, rendered call): a let-bound helper result substituted at several uses is one call
+    uniq, seen = [], set()
+    for b, n, t in out:
+        k = (b["path"], id(n), show(t))
+        if k not in seen:
+            seen.add(k)
+            uniq.append((b, n, t))
+    return uniq
+
+
+def norm_of(ctx, b):
+    cache = ctx.__dict__.setdefault("_norm_cache", {})
+    if b["path"] not in cache:
+        cache[b["path"]] = Norm(b)
+    return cache[b["path"]]
+
+
 def field_reads(root, owner_suffix, name=None):
     for n in walk(root):
         if n.get("k") == "Field" and peel(n.get("owner", "")).split("<")[0].endswith(owner_suffix):
@@ -339,7 +377,7 @@ def expect_term(ctx, rule, key, node, got_term, expected, why=""):
     ok = any(term_matches(got, e) for e in exps)
     detail = why
     if not ok:
-        detail = (why + "\n" if why else "") + "expected: " + " | ".join(exps) + "\nfound:    " + got
+        detail = (why + "\n" if why else "") + "found:    " + got[:2500] + "\nexpected: " + "\n      or: ".join(e[:2500] for e in exps)
     return ctx.expect(ok, rule, key, site(node) if isinstance(node, dict) else node, why, detail)
 
 
